@@ -136,6 +136,9 @@ type World struct {
 	Fatal      error
 	AdoptPanic string // a panic inside AdoptSession (recovered), with stack
 	storeDir   string // scratch directory of a filesystem-flavoured store
+	// PlainRecords: the stored values are bare packets (session made like
+	// VolatileSession does, without the sequence number and checksum trailer)
+	PlainRecords bool
 
 	Broker *refmqtt.Broker
 	Store  *Store
@@ -265,7 +268,7 @@ func New(t TB, o Options) *World {
 	var inner mqtt.Persistence
 	flavour := o.StoreFlavour
 	switch flavour {
-	case "volatile":
+	case "volatile", "volatile-plain":
 		inner = mqtt.VerifNewVolatile()
 	case "filesystem":
 		dir, err := os.MkdirTemp(os.Getenv("VERIF_SCRATCH"), "simfs-")
@@ -303,6 +306,14 @@ func New(t TB, o Options) *World {
 			w.Client, w.Warn, w.Fatal = mqtt.AdoptSession(w.Store, &cfg)
 		}()
 		w.Store.ClearFaults()
+	} else if flavour == "volatile-plain" {
+		// as VolatileSession: the library's map without the checksum layer
+		w.Client, w.Fatal = mqtt.VerifInitSessionPlain(o.ClientID, w.Store, &cfg)
+		w.PlainRecords = w.Fatal == nil
+		if w.Fatal != nil {
+			w.Store.Flavour = "volatile"
+			w.Client, w.Fatal = mqtt.InitSession(o.ClientID, w.Store, &cfg)
+		}
 	} else {
 		w.Client, w.Fatal = mqtt.InitSession(o.ClientID, w.Store, &cfg)
 	}
